@@ -169,6 +169,17 @@ func runCheck(id, tier string, o runOpts) int {
 	if len(und) > 0 {
 		exit = 2 // a check that cannot decide is broken; this is never reported as a violation
 	}
+	var mres []mutantResult
+	if tier == "thorough" && os.Getenv("ZR_MUTANT") == "" {
+		var ok bool
+		mres, ok = runMutants(id, o)
+		if !ok {
+			fmt.Fprintln(os.Stderr, "zrcheck: mutation self-test failed: a registered mutant was not detected; the check cannot see its own target")
+			if exit == 0 {
+				exit = 2
+			}
+		}
+	}
 	wall := time.Since(t0).Seconds()
 	if o.verbose {
 		for _, ob := range rep.Obligations {
@@ -180,7 +191,7 @@ func runCheck(id, tier string, o runOpts) int {
 		os.WriteFile(o.jsonOut, b, 0o644)
 	}
 	if !o.noEvidence {
-		if err := writeEvidence(evDir, prop, rep, p, tier, wall, len(unlisted), knownHit); err != nil {
+		if err := writeEvidence(evDir, prop, rep, p, tier, wall, len(unlisted), knownHit, mres); err != nil {
 			fmt.Fprintln(os.Stderr, "zrcheck: evidence:", err)
 			return 2
 		}
@@ -190,7 +201,7 @@ func runCheck(id, tier string, o runOpts) int {
 	return exit
 }
 
-func writeEvidence(dir string, prop *props.Property, rep *an.Report, p *load.Program, tier string, wall float64, nviol int, known []string) error {
+func writeEvidence(dir string, prop *props.Property, rep *an.Report, p *load.Program, tier string, wall float64, nviol int, known []string, mres []mutantResult) error {
 	seed := 0
 	if s := os.Getenv("VERIF_SEED"); s != "" {
 		seed, _ = strconv.Atoi(s)
@@ -230,6 +241,7 @@ func writeEvidence(dir string, prop *props.Property, rep *an.Report, p *load.Pro
 		"known_findings":      known,
 		"notes":               rep.Notes,
 		"all_obligations":     rep.Obligations,
+		"mutation_self_test":  mres,
 		"checker_cmd":         "/verif/check " + prop.ID + " " + tier,
 		"trusted_base":        []string{"go/types", "golang.org/x/tools/go/packages", "golang.org/x/tools/go/ssa", "/verif/internal/flow (labelled CFG, dominators, truth table)", "/verif/cmd/stubgen (signatures of the cgo binding only)", "rule tables in /verif/props"},
 	}
